@@ -447,6 +447,17 @@ def run_equal_collisions(ctx):
             schemas.append(root)
     if ctx.tier == "quick":
         schemas = schemas[::2]
+    # inline types whose derived names meet the names the generator derives itself (array items: <X>Elem, map values: <X>Value, anyOf branches: <X>_0, <X>_1 ...)
+    o = lambda k, t, **kw: dict({"type": "object", "properties": {k: dict({"type": t}, **kw)}, "required": [k]})      # noqa: E731
+    derived = [
+        {"type": "object", "properties": {"shape": {"type": "array", "items": {"anyOf": [o("radius", "number"), o("side", "number")]}}, "shapeElem": o("label", "string")}},
+        {"type": "object", "properties": {"list": {"type": "array", "items": o("a", "string", minLength=1)}, "listElem": o("b", "integer", minimum=1), "list_elem": o("c", "boolean")}},
+        {"type": "object", "properties": {"m": {"type": "object", "additionalProperties": o("c", "string")}, "mValue": o("d", "integer")}},
+        {"type": "object", "properties": {"u": {"anyOf": [o("p", "string"), o("q", "integer")]}, "w": {"type": "array", "items": {"anyOf": [o("p", "string"), o("q", "integer")]}},
+                                          "wElem": o("z", "string"), "u2": o("y", "number")}},
+        {"type": "object", "properties": {"grid": {"type": "array", "items": {"type": "array", "items": o("cell", "integer")}}, "gridElem": o("x", "string"), "gridElemElem": o("y", "string")}},
+    ]
+    schemas = schemas + derived
     cases = build_cases(ctx, len(schemas), None, {"valid", "type", "bound", "string", "required"}, "c14e", extra_schemas=schemas, docs_per=2, max_docs=60,
                         fam="equal-collisions")
     run_cases(ctx, cases, "c14e")
